@@ -225,10 +225,19 @@ def step_body(st):
 
 
 def take_steps(srv, iid, steps, log):
-    """log: list of (settings-or-None, response dict) per single step taken; returns reference violations."""
+    """log: list of (settings-or-None, response dict, request number) per single step taken; returns reference violations."""
     viol = []
     for st in steps:
-        if st["k"] == "lib":
+        rid = (log[-1][2] + 1) if log else 0
+        if st["k"] == "stream":
+            # stream-steps: ONE request that steps the session to its end with one settings object, written once at the end
+            r = post(srv.client, f"/{iid}/stream-steps", {"settings": st["settings"]})
+            if r.status_code != 200:
+                viol.append(("stream-steps-http-%d" % r.status_code, f"stream-steps {st} -> HTTP {r.status_code}"))
+                break
+            for one in json.loads(r.data):
+                log.append((st["settings"], one, rid))
+        elif st["k"] == "lib":
             # library use: bptk.run_step(settings=s) in a loop with the SAME objects (pattern = which object of the
             # pool each step gets), then what every stepping request of the server does: externalise the instance
             pool = [copy.deepcopy(x) for x in st["pool"]]
@@ -237,7 +246,7 @@ def take_steps(srv, iid, steps, log):
                 one = b.run_step(settings=pool[i])
                 if one is None:
                     viol.append(("run-step-returned-none", f"library run_step {st} returned None")); break
-                log.append((pool[i], one))
+                log.append((pool[i], one, rid))
             srv.adapter.save_instance(srv.app._instance_manager._get_instance_state(iid))
         elif st["k"] == "multi":
             r = post(srv.client, f"/{iid}/run-steps", {"settings": st["settings"], "numberSteps": st["n"]})
@@ -245,14 +254,14 @@ def take_steps(srv, iid, steps, log):
                 viol.append(("run-steps-http-%d" % r.status_code, f"run-steps {st} -> HTTP {r.status_code}"))
                 break
             for one in json.loads(r.data):
-                log.append((st["settings"], one))
+                log.append((st["settings"], one, rid))
         else:
             r = post(srv.client, f"/{iid}/run-step", step_body(st))
             if r.status_code != 200:
                 key = "run-step-without-body-http-%d" % r.status_code if st["k"] == "nobody" else "run-step-http-%d" % r.status_code
                 viol.append((key, f"run-step ({st['k']}) with a state adapter configured -> HTTP {r.status_code}"))
                 break
-            log.append((None if st["k"] == "nobody" else st.get("settings", {}), json.loads(r.data)))
+            log.append((None if st["k"] == "nobody" else st.get("settings", {}), json.loads(r.data), rid))
     return viol
 
 
@@ -265,16 +274,43 @@ def observe(srv, iid):
     return st, raw, res
 
 
-def model_lines(inst, raw_before, log, raw_after, res_after, compress, filestate, nr, ns, tag, fileraw=None, stats=None):
-    """Protocol lines (request, expected reply) for one instance at one save/load point."""
-    req, exp = [], []
-    spec_paths = result_paths(raw_before, nr)
-    req.append(f"begin {','.join(map(str, spec_paths)) or '-'} {T(raw_before['starttime'])} {T(raw_before['dt'])} {T(raw_before['stoptime'])}")
-    exp.append("ok")
-    for settings, resp in log:
+def step_lines(log, nr, ns, req, exp):
+    """the steps of one session; `flush` closes every step-advancing request (after it the server writes the instance)"""
+    for i, (settings, resp, rid) in enumerate(log):
         sline = "none" if settings is None else (fmt_row(flat_settings(settings, ns)) or "-")
         vline = "-" if "msg" in resp else (fmt_row(flat_result(resp, nr)) or "-")
         req.append(f"step {sline} {vline}"); exp.append("ok")
+        if i + 1 == len(log) or log[i + 1][2] != rid:
+            req.append("flush"); exp.append("ok")
+
+
+def begin_line(raw, nr):
+    return f"begin {','.join(map(str, result_paths(raw, nr))) or '-'} {T(raw['starttime'])} {T(raw['dt'])} {T(raw['stoptime'])}"
+
+
+def file_line(filestate, compress, nr):
+    if filestate is None:
+        return "file=none"
+    sl = filestate["settings_log"]
+    n = len(sl["steps"]) if compress and isinstance(sl, dict) and "steps" in sl else len(sl)
+    return f"file:paths={','.join(map(str, result_paths(filestate, nr)))};step={T(filestate['step'])};n={n}"
+
+
+def model_lines(inst, raw_before, log, raw_after, res_after, compress, filestate, nr, ns, tag, fileraw=None, stats=None, prior=()):
+    """Protocol lines (request, expected reply) for one instance at one save/load point: the whole history of the instance
+    (earlier sessions included) for the instance-level machine, the last session for the save/load round trip."""
+    req, exp = ["new", f"cfgs {int(SAVES_AFTER_EVERY_STEP_REQUEST[0])}"], ["ok", "ok"]
+    for snap, plog, ended in prior:
+        req.append(begin_line(snap, nr)); exp.append("ok")
+        step_lines(plog, nr, ns, req, exp)
+        if ended:
+            req.append("endsession"); exp.append("ok")
+    req.append(begin_line(raw_before, nr))
+    exp.append("ok")
+    step_lines(log, nr, ns, req, exp)
+    if tag == "server":
+        req.append("saveall"); exp.append("ok")
+    req.append("saved"); exp.append(file_line(filestate, compress, nr))
     req.append("state"); exp.append(fmt_session(raw_before, nr, ns))
     b = "1" if compress else "0"
     try:
@@ -303,6 +339,7 @@ def model_lines(inst, raw_before, log, raw_after, res_after, compress, filestate
 
 
 PK_STATS = {"files": 0, "files_with_backrefs": 0, "backrefs": 0}
+SAVES_AFTER_EVERY_STEP_REQUEST = [True]                   # probed: every step-advancing request is followed by a write of the instance
 SAVE_STATE_SKIPS_SESSIONLESS = [False]                    # probed: GET /save-state works while an instance has no session yet
 KEEPS_EMPTY_INNER = [False]                               # probed: the compressed format keeps {"smA": {}} (else compared up to those)
 
@@ -432,11 +469,37 @@ def _run_case(case, base):
     req, exp, viol = [], [], []
     nr, ns = Numbering(), Numbering()
     try:
-        ids, logs = [], []
+        ids, logs, priors = [], [], []
         for inst in case["instances"]:
             iid = json.loads(post(srv.client, "/start-instance").data)["instance_uuid"]
+            hist = []
+            for ps in inst.get("prior", []):
+                # an EARLIER session on the same instance: other scenario managers / scenarios / equations / settings
+                srv.bptk(iid).begin_session(scenarios=ps["scs"], scenario_managers=ps["sms"], settings=copy.deepcopy(ps.get("settings", {})),
+                                            agents=[], agent_states=[], agent_properties=[], agent_property_types=[],
+                                            individual_agent_properties=[], equations=ps["eqs"], starttime=spec["start"], dt=spec["dt"])
+                snap = copy.deepcopy(srv.bptk(iid).session_state)
+                plog = []
+                v = take_steps(srv, iid, ps["steps"], plog)
+                viol += [(k, t, {"instance": len(ids), "session": len(hist)}) for k, t in v]
+                if ps.get("check") and plog and not viol:          # restore after this session too (per instance)
+                    st_b, _, res_b = observe(srv, iid)
+                    srv.app._instance_manager._delete_instance(iid)
+                    res_r = srv.client.get(f"/{iid}/session-results")
+                    b = srv.bptk(iid)
+                    res_a = json.loads(res_r.data) if res_r.status_code == 200 and b is not None else {"http": res_r.status_code}
+                    c = classify(st_b, canon_state(copy.deepcopy(b.session_state)) if b is not None else None, res_b, res_a, case["compress"])
+                    if c is not None:
+                        viol.append((c[0], f"{'compressed' if case['compress'] else 'plain'} mode, restore after session {len(hist)}: {c[1]}",
+                                     {"instance": len(ids), "session": len(hist)}))
+                if ps.get("end") and srv.bptk(iid) is not None:
+                    r = post(srv.client, f"/{iid}/end-session")
+                hist.append((snap, plog, bool(ps.get("end"))))
+            priors.append(hist)
+            if viol:
+                break
             sms = inst["sms"]
-            srv.bptk(iid).begin_session(scenarios=inst["scs"], scenario_managers=sms, settings={}, agents=[], agent_states=[],
+            srv.bptk(iid).begin_session(scenarios=inst["scs"], scenario_managers=sms, settings=copy.deepcopy(inst.get("settings", {})), agents=[], agent_states=[],
                                         agent_properties=[], agent_property_types=[], individual_agent_properties=[],
                                         equations=inst["eqs"], starttime=spec["start"], dt=spec["dt"])
             log = []
@@ -478,7 +541,7 @@ def _run_case(case, base):
                                  {"instance": n, "route": route}))
                 try:
                     q, e = model_lines(case["instances"][n], raw_before, logs[n], raw_after, res_after, case["compress"],
-                                       read_file_state(path, iid), nr, ns, route, read_file_raw(path, iid), PK_STATS)
+                                       read_file_state(path, iid), nr, ns, route, read_file_raw(path, iid), PK_STATS, priors[n])
                 except ValueError as err:
                     q, e = ["begin - 0 0 0"], [f"harness: {err}"]
                 req += q; exp += e
@@ -571,7 +634,70 @@ def gen_case(rng, quick):
         n = rng.range(0, 4 if quick else 7)
         insts.append({"sms": sms, "scs": scs, "eqs": eqs, "steps": [gen_step(rng, sms, scs) for _ in range(n)],
                       "extra": [gen_step(rng, sms, scs) for _ in range(rng.range(0, 2))]})
+    if rng.chance(1, 3):
+        # several sessions on one instance: earlier sessions with other scenario managers / scenarios / equations / settings,
+        # ended or not; the last session is often taken by ONE request to the clock position of the last write
+        for inst in insts:
+            if not rng.chance(2, 3):
+                continue
+            inst["prior"] = []
+            for _ in range(rng.range(1, 2)):
+                psms = rng.choice([["smA"], ["smA", "smB"], ["smB"]]); pscs = rng.choice([["a"], ["a", "b"]])
+                inst["prior"].append({"sms": psms, "scs": pscs, "eqs": rng.choice([["s"], ["c", "g"], ["s", "f"]]),
+                                      "settings": rng.choice([{}, {}, copy.deepcopy(S2)]),
+                                      "steps": [gen_session_step(rng, psms, pscs) for _ in range(rng.range(1, 2))],
+                                      "end": rng.chance(1, 2), "check": rng.chance(1, 3)})
+            inst["settings"] = rng.choice([{}, copy.deepcopy(S2)])
+            last = inst["prior"][-1]["steps"]
+            total = sum(x.get("n", 1) if x["k"] != "lib" else len(x["pattern"]) for x in last)
+            if last and last[-1]["k"] == "stream":
+                inst["steps"] = [{"k": "stream", "settings": shared_settings(rng, inst["sms"], inst["scs"])}]
+            elif rng.chance(2, 3):
+                inst["steps"] = [{"k": "multi", "n": total, "settings": shared_settings(rng, inst["sms"], inst["scs"])}]
+            elif not inst["steps"]:
+                inst["steps"] = [{"k": "empty"}]
     return {"spec": spec, "compress": rng.chance(2, 3), "instances": insts, "idle": rng.chance(1, 3)}
+
+
+def gen_session_step(rng, sms, scs):
+    r = rng.below(6)
+    if r < 3:
+        return {"k": "multi", "n": rng.range(1, 3), "settings": shared_settings(rng, sms, scs)}
+    if r < 4:
+        return {"k": "stream", "settings": shared_settings(rng, sms, scs)}
+    return gen_step(rng, sms, scs)
+
+
+def several_sessions_cases(quick):
+    """A first session and a second one with other scenario managers / scenarios / equations / session settings on the same
+    instance, the second one taken to the clock position of the last write: all shapes x ended or not x both modes."""
+    c5 = {"smA": {"a": {"constants": {"c": 5.0}}}}
+    shapes = [[{"k": "multi", "n": 2, "settings": c5}], [{"k": "stream", "settings": {}}],
+              [{"k": "set", "settings": c5}, {"k": "empty"}], [{"k": "multi", "n": 2, "settings": {}}, {"k": "nobody"}]]
+    same = [[{"k": "multi", "n": 2, "settings": {}}], [{"k": "stream", "settings": c5}],
+            [{"k": "multi", "n": 2, "settings": c5}], [{"k": "multi", "n": 3, "settings": {}}]]
+    out = []
+    for i, first in enumerate(shapes):
+        for j, second in enumerate(same + ([[{"k": "empty"}, {"k": "multi", "n": 1, "settings": {}}]] if not quick else [])):
+            if ("stream" in (first[0]["k"], second[0]["k"])) and first[0]["k"] != second[0]["k"]:
+                continue                                  # a stream ends at the stop time; only another stream lands there
+            for end in (False, True):
+                for compress in ((True, False) if not quick else ((i + j + end) % 2 == 0,)):
+                    for swap in ((False, True) if not quick else (False,)):
+                        a = {"sms": ["smA"], "scs": ["a"], "eqs": ["s"], "settings": {}}
+                        b = {"sms": ["smA", "smB"], "scs": ["a", "b"], "eqs": ["s", "g"], "settings": copy.deepcopy(S2)}
+                        if swap:
+                            a, b = b, a
+                        out.append({"spec": {"start": 2.0, "dt": 0.5, "stop": 5.0}, "compress": compress,
+                                    "instances": [dict(b, prior=[dict(a, steps=copy.deepcopy(first), end=end, check=False)],
+                                                       steps=copy.deepcopy(second), extra=[{"k": "empty"}])]})
+    # three sessions, restore after each
+    out.append({"spec": {"start": 0.1, "dt": 0.1, "stop": 0.6}, "compress": True,
+                "instances": [{"prior": [{"sms": ["smA"], "scs": ["a"], "eqs": ["s"], "settings": {}, "steps": copy.deepcopy(shapes[0]), "end": True, "check": True},
+                                         {"sms": ["smB"], "scs": ["a"], "eqs": ["c", "g"], "settings": {}, "steps": copy.deepcopy(same[0]), "end": False, "check": True}],
+                               "sms": ["smA"], "scs": ["a", "b"], "eqs": ["s", "f"], "settings": copy.deepcopy(S2),
+                               "steps": copy.deepcopy(same[2]), "extra": []}]})
+    return out
 
 
 def exhaustive_cases(quick):
@@ -622,6 +748,8 @@ def shrink_case(case, key, base):
         for i in range(len(cur["instances"])):
             if len(cur["instances"]) > 1:
                 c = copy.deepcopy(cur); del c["instances"][i]; cands.append(c)
+            for j in range(len(cur["instances"][i].get("prior", []))):
+                c = copy.deepcopy(cur); del c["instances"][i]["prior"][j]; cands.append(c)
             for fld in ("extra", "steps"):
                 for j in range(len(cur["instances"][i][fld])):
                     c = copy.deepcopy(cur); del c["instances"][i][fld][j]; cands.append(c)
@@ -635,6 +763,14 @@ def shrink_case(case, key, base):
 # ------------------------------------------------------------------ probes and Gen
 PROBE_LOG = {2.0: {"smA": {"a": {"constants": {"c": 5.0}}}}, 2.5: {}, 3.0: {"smA": {"a": {"constants": {"c": 7.0, "k": 3.0}}}}, 3.5: {}}
 PROBE_RES = {k: {"smA": {"a": {"s": {k: float(i)}, "c": {k: 5.0 + i}}}} for i, k in enumerate([2.0, 2.5, 3.0, 3.5])}
+
+
+S2 = {"smA": {"a": {"constants": {"c": 3.0}}}}
+SECOND_SESSION_WITNESS = {"spec": {"start": 2.0, "dt": 0.5, "stop": 5.0}, "compress": False,
+                          "instances": [{"prior": [{"sms": ["smA"], "scs": ["a"], "eqs": ["s"], "settings": {},
+                                                    "steps": [{"k": "multi", "n": 2, "settings": {}}], "end": False}],
+                                         "sms": ["smA", "smB"], "scs": ["a", "b"], "eqs": ["s", "g"], "settings": S2,
+                                         "steps": [{"k": "multi", "n": 2, "settings": {}}], "extra": []}]}
 
 
 def probe(base):
@@ -668,6 +804,11 @@ def probe(base):
     _, _, v = run_case(idle, base)
     facts["saveStateSkipsSessionless"] = not any(k.startswith("save-state-http") for k, _, _ in v)
     SAVE_STATE_SKIPS_SESSIONLESS[0] = facts["saveStateSkipsSessionless"]
+    # wave 3 -- a second session on the instance, taken by run-steps to the clock position written last: is it written?
+    SAVES_AFTER_EVERY_STEP_REQUEST[0] = True
+    _, _, v = run_case(SECOND_SESSION_WITNESS, base)
+    facts["saveAfterEveryStepRequest"] = not v
+    SAVES_AFTER_EVERY_STEP_REQUEST[0] = facts["saveAfterEveryStepRequest"]
     # wave 2 -- the pickler: a real session state in which one settings object is logged for several steps
     facts.update(probe_pickle(base))
     return facts
@@ -774,15 +915,19 @@ def lean_row(pairs):
 def gen_lean(facts):
     ns, nr = Numbering(), Numbering()
     res = bool(facts.get("decoderResolvesRefs"))
+    sav = bool(facts.get("saveAfterEveryStepRequest"))
     head = ("import Bptk.Props.C19\n/-! GENERATED by harness/props/c19.py from /repo on every run — do not edit. -/\n"
             "namespace Bptk.C19.Gen\n"
             f"/-- probed: decompress(compress(log)) keeps the step times: {facts['compressionKeepsSteps']}; "
             f"run-step without body is externalised: {facts['noneSettingsSaved']}; the compressed format keeps empty inner "
             f"dictionaries: {facts.get('compressionKeepsEmptyInner')}; FileAdapter._load_instance resolves py/id: {res} -/\n"
-            f"def cfg : Cfg := {{ decoderResolvesRefs := {'true' if res else 'false'} }}\n"
+            f"-- every step-advancing request is followed by a write of the instance (second session stepped to the clock position "
+            f"written last is in the file): {sav}\n"
+            f"def cfg : Cfg := {{ decoderResolvesRefs := {'true' if res else 'false'}, saveAfterEveryStepRequest := {'true' if sav else 'false'} }}\n"
             "theorem holds_all_codecs : C19_full := C19_full_holds\n#print axioms holds_all_codecs\n"
-            + ("theorem holds : C19_full_cfg cfg := C19_full_of_good cfg (by decide)\n#print axioms holds\n" if res else
-               "theorem violated : ¬ C19_full_cfg cfg := C19_witness_plain_reader cfg (by decide)\n#print axioms violated\n"))
+            + ("theorem holds : C19_full_cfg cfg := C19_full_of_good cfg (by decide)\n#print axioms holds\n" if res and sav else
+               "theorem violated : ¬ C19_full_cfg cfg := C19_witness_plain_reader cfg (by decide)\n#print axioms violated\n" if not res else
+               "theorem violated : ¬ C19_full_cfg cfg := C19_witness_skip_save cfg (by decide)\n#print axioms violated\n"))
     if "pk_state" in facts:
         try:
             pv = py_to_pv(facts["pk_state"], {})
@@ -874,7 +1019,7 @@ def _run(chk, base):
                        "compressed file content, restored state, served results (correspondence). exhaustive: all step-kind sequences up to "
                        "length L at start 2.0/dt 0.5 and one mixed history on every lattice point, both modes; non-trivial = at least one step "
                        "with non-empty settings and one without")
-    cases = exhaustive_cases(chk.quick)
+    cases = exhaustive_cases(chk.quick) + several_sessions_cases(chk.quick)
     n_exh = len(cases)
     rng = chk.rng.fork("c19-random")
     for _ in range(40 if chk.quick else 600):
@@ -882,7 +1027,7 @@ def _run(chk, base):
     chk.cov["exhaustive_cases"] = n_exh
     req, exp, owners = [], [], []
     viol_by_key = {}
-    dist = {"set": 0, "empty": 0, "nobody": 0, "multi": 0, "lib": 0, "compressed": 0, "plain": 0, "instances": {1: 0, 2: 0, 3: 0},
+    dist = {"set": 0, "empty": 0, "nobody": 0, "multi": 0, "lib": 0, "stream": 0, "several_sessions": 0, "same_clock_as_last_write": 0, "compressed": 0, "plain": 0, "instances": {1: 0, 2: 0, 3: 0},
             "non_dyadic": 0, "non_normal_settings": 0}
     for k in PK_STATS:
         PK_STATS[k] = 0
@@ -890,12 +1035,14 @@ def _run(chk, base):
         q, e, viol = run_case(case, base)
         owners += [ci] * len(q)
         req += q; exp += e
-        kinds = [s["k"] for i in case["instances"] for s in i["steps"] + i["extra"]]
+        kinds = [s["k"] for i in case["instances"] for s in i["steps"] + i.get("extra", []) + [x for ps in i.get("prior", []) for x in ps["steps"]]]
+        dist["several_sessions"] += sum(1 for i in case["instances"] if i.get("prior"))
+        dist["same_clock_as_last_write"] += sum(1 for i in case["instances"] if i.get("prior") and i["steps"] and i["steps"][0]["k"] in ("multi", "stream"))
         for k in kinds:
             dist[k] += 1
         dist["compressed" if case["compress"] else "plain"] += 1
         dist["non_dyadic"] += 1 if Fraction(case["spec"]["dt"]).denominator > 1024 or Fraction(case["spec"]["start"]).denominator > 1024 else 0
-        dist["non_normal_settings"] += sum(1 for i in case["instances"] for s_ in i["steps"] + i["extra"]
+        dist["non_normal_settings"] += sum(1 for i in case["instances"] for s_ in i["steps"] + i.get("extra", [])
                                            if s_["k"] == "set" and prune(s_["settings"]) != s_["settings"])
         dist["instances"][len(case["instances"])] += 1
         chk.case(json.dumps(case, sort_keys=True), nontrivial=("set" in kinds or "multi" in kinds or "lib" in kinds) and ("empty" in kinds or "nobody" in kinds),
